@@ -191,6 +191,56 @@ CLAIMED = {
         technique="model-checked loop and laws (TLC) + exhaustive deterministic replay + exact statistical acceptance",
         design_ref="4/C15",
     ),
+    "C05": dict(
+        level="model_checking",
+        text="MPOAutomaton.tla transcribes emu_mps/hamiltonian.py at index level (masks, running counters, slice assignments, bond arithmetic, Rydberg and XY, update_H slots) next to the named-channel reference; TLC checks that the path bag of the MPO "
+             "automaton equals {T_k} + {U_ij N_i N_j} (or the XY terms) symbolically in U after make_H and after each of two update_H, for every interaction pattern with N <= 5 (quick) / 6 (thorough). The real factors are recorded, projected onto the alphabet and judged "
+             "by the same requirement in MPORecorded.tla, compared index by index with the model's factors, and contracted densely against the reference Hamiltonian.",
+        note="Exhaustive in pattern space up to N = 5 / 6 (N = 7 slices and samples); symbolic U means generic values; dim 3 exhaustive to N = 4 / 5.",
+        technique="TLA+ model checking of an index-level mechanism against a path-bag requirement + recorded-structure validation in TLC + exhaustive dense comparison",
+        design_ref="4/C05",
+    ),
+    "C06": dict(
+        level="model_checking",
+        text="SVOperator.tla transcribes the view / index_add_ arithmetic of RydbergHamiltonian (diagonal, real fast path, complex path) and RydbergLindbladian in exact Gaussian-integer arithmetic against the bit-string entry map of H and i*Lindblad; "
+             "TLC checks HamOK, LindOK, Hermiticity, fast = complex path at phi = 0, trace and Hermiticity preservation over unit parameter assignments; every probe is replayed on the real classes (CPU branch and the batched branch forced by an is_cpu=False tensor subclass), "
+             "plus random dense comparison for N = 1..8 with 0-6 jump operators.",
+        note="Unit probes determine the operators per code path by linearity; general values covered by random comparison; no real CUDA; Lindblad model N <= 2.",
+        technique="TLA+ model checking (TLC) + exhaustive spec->code probe replay + random dense differential testing",
+        design_ref="4/C06",
+    ),
+    "C12": dict(
+        level="model_checking",
+        text="SVObjects.tla models the index parse, outer product, operator tables, target loop, reduce(kron) and the COO arithmetic of the sparse operators against the index bijection and the Kronecker entry law, dense = sparse and rho = |psi><psi|, over all basis strings and "
+             "operator representations for N <= 3 / 4; every enumerated object is built with the real constructors and compared entry by entry; random amplitude dictionaries, operator representations and tensors (1-8 qubits) are checked against a numpy reference for all public operations.",
+        note="Nested symbolic operators cannot reach _from_operator_repr under pulser-core 1.9.1; documented NotImplementedError operations are recorded, not judged.",
+        technique="TLA+ model checking (TLC) + exhaustive constructor replay + random differential testing",
+        design_ref="4/C12",
+    ),
+    "C20": dict(
+        level="model_checking",
+        text="PchipFn.tla transcribes pchip_torch.py operator by operator in exact rationals (code variant and the standard Fritsch-Carlson / SciPy variant); TLC checks KnotsExact, C1, exact monotonicity, boundedness and equality with the standard interpolant incl. extrapolation on every enumerated data set; "
+             "every data set is replayed into the real PCHIP1D / _pchip_derivatives (the real slopes identify the variant the code follows) and random exploration (2-500 knots, flat runs, ratios up to 1e9, tiny magnitudes) is compared with the exact reference and scipy.",
+        note="Exhaustive up to 6 knots and value ratio <= 10 (32-bit TLC integers); float budget 256*eps * sum of term magnitudes.",
+        technique="TLA+ model checking (TLC) over rational data sets + spec->code replay with mechanism identification + random exploration",
+        design_ref="4/C20",
+    ),
+    "C22": dict(
+        level="model_checking",
+        text="DriveSampling.tla (over PchipFn) models midpoints, knots 0..T-1, index clamp, extrapolation past T-1, the amplitude clamp and the column<->atom mapping with named variants; TLC checks ColumnIsAtom, MidpointValue and AmplitudeNonNegative on every grid, signal and register; "
+             "all cases are replayed into the real _extract_omega_delta_phi and real Pulser sequences of every waveform kind / channel layout / dt / noise mode are compared with scipy PCHIP on Pulser's own samples, also at the point of use (sv_step hook).",
+        note="Exhaustive scope T <= 5, small alphabets; with_modulation, XY channels and SLM masks not covered here.",
+        technique="TLA+ model checking (TLC) + spec->code replay with variant identification + stratified exploration on real sequences",
+        design_ref="4/C22",
+    ),
+    "C30": dict(
+        level="model_checking",
+        text="PchipGrad.tla is an abstract interpreter over {NEG, ZERO, POS, PINF, NINF, NAN} of the forward and reverse pass of the PCHIP slope computation over all sign patterns (GradFinite, ForwardFinite); every pattern is concretised on the real autograd. "
+             "AD is compared with Richardson-extrapolated central differences for single EvolveStateVector steps, whole emu-sv runs (rows, U, initial state) and Pulser waveform parameters.",
+        note="Abstract domain ignores overflow of finite values; finite-difference budget 1e-5 relative + 1e-7 + 2x step spread; equality with finite differences is sampled.",
+        technique="TLA+ abstract-domain model checking (TLC) + concretisation on real autograd + directional finite-difference exploration",
+        design_ref="4/C30",
+    ),
 }
 PENDING_REASON = "check not built yet in this round (planned in DESIGN.md section 4); not claimed until it runs"
 NOT_APPLICABLE = {}
